@@ -363,6 +363,36 @@ def shard_grid(args):
 
 
 # ---------------------------------------------------------------------------------------
+# part 1b: extreme ratios - a huge demand over tiny supply weights.  Every share
+# D * w / sum(w) is an ordinary double here, although D / sum(w) is not.
+
+EXTREME_SUPPLY = [0, 1e-160, 3e-160]
+EXTREME_DEMANDS = [1e150, 1e200]
+
+
+def shard_extreme(args):
+    (count,) = args
+    acc = Acc()
+    label = "weighted:supply"
+    grid = [(s, u, a) for s in EXTREME_SUPPLY for u in (0.25, 1) for a in (0.25, 1)]
+    for children in itertools.product(grid, repeat=count):
+        for demand in EXTREME_DEMANDS:
+            case = {"label": label, "children": children, "ops": [("write", demand)]}
+            try:
+                composite, mine = build(label, children)
+                problem = step(label, composite, mine, ("write", demand))
+            except Exception as err:  # noqa: B902
+                problem = ("raised-%s" % type(err).__name__, "raised %s" % err)
+            acc.case(nontrivial_key=(label, children, demand),
+                     sample=case if acc.evaluations % 701 == 0 else None)
+            acc.outcome(problem[0] if problem else "ok")
+            if problem:
+                report(acc, case, tuple(problem) + (0,))
+    acc.count("extreme:cases", acc.evaluations)
+    return acc
+
+
+# ---------------------------------------------------------------------------------------
 # part 2: breadth-first search over operation histories
 
 
@@ -449,7 +479,7 @@ def shard_bfs(args):
 
 
 def shard(args):
-    return {"grid": shard_grid, "bfs": shard_bfs}[args[0]](args[1:])
+    return {"grid": shard_grid, "bfs": shard_bfs, "extreme": shard_extreme}[args[0]](args[1:])
 
 
 # ---------------------------------------------------------------------------------------
@@ -484,6 +514,7 @@ def run(ctx):
     for label in LABELS:
         for children in scenarios:
             shards.append(("bfs", label, children, depth + (len(children) <= DEEPER)))
+    shards += [("extreme", count) for count in (1, 2, 3)]
     ctx.pmap(shard, shards)
     counters = ctx.acc.counters
     ctx.meta.update(
